@@ -51,11 +51,18 @@ def props_of_failure(f, unit_res):
         for l in lab.split(","):
             out.add(l.split(".")[0])
         return out, "labelled"
-    # unlabelled internal obligation: counts against the properties of the enclosing real function
+    # unlabelled internal obligation
+    if any(k in f["msg"] for k in engine.PANIC_MSGS):
+        # a possible run-time panic (overflow / division): C17, and C01 where the arithmetic is ID arithmetic
+        out.add("C17")
+        if any(k in (f.get("fn") or "") for k in ("NextReferenceIdProcessor", "generate_code", "helper(R9")):
+            out.add("C01")
+        return out, "internal"
+    # any other unlabelled obligation (an unlabelled invariant or hint, a callee precondition): the proofs of all labelled clauses of the
+    # enclosing function rest on it, so it counts against that function's properties
     out |= fnprops
-    if any(k in f["msg"] for k in engine.PANIC_MSGS) or "precondition not satisfied" in f["msg"]:
-        if "C17" in fnprops or not fnprops:
-            out.add("C17")
+    if "precondition not satisfied" in f["msg"] and ("C17" in fnprops or not fnprops):
+        out.add("C17")
     return out, "internal"
 
 
